@@ -155,16 +155,28 @@ theorem validate_record_independent (m : Mode) :
     (r.validate C (some m) reset sch).1 = (r.validate C (some .silent) reset sch).1 := by
   simp only [validate_eq]
 
-/-- the outcome: the assertion failure of the Silent run if there is one, else `processErrors` -/
+/-- `validate` raises nothing in Silent mode (it has no assertion left that could fail): the
+    Silent run succeeds and logs nothing -/
+theorem validate_silent_ok : (r.validate C (some .silent) reset sch).2 = .ok [] := by
+  simp only [validate_eq, Option.getD_some, processErrors_silent]
+
+/-- the only exception `validate` raises, under any stringency, is the `MafFormatException` of
+    `processErrors` in Strict mode: the first collected error -/
+theorem validate_error_only_strict_format {m : Mode} {e : PyErr}
+    (h : (r.validate C (some m) reset sch).2 = .error e) :
+    m = .strict ∧ ∃ x xs, (r.validate C (some .silent) reset sch).1.errors = x :: xs ∧
+      e = .format x.tpe x.line := by
+  simp only [validate_eq, Option.getD_some] at h ⊢
+  exact processErrors_error h
+
+/-- the outcome: (the failure of the Silent run if there were one — there is none, see
+    `validate_silent_ok` — else) `processErrors` -/
 theorem validate_outcome (m : Mode) :
     (r.validate C (some m) reset sch).2 =
       match (r.validate C (some .silent) reset sch).2 with
       | .error e => .error e
       | .ok _ => processErrors m (r.validate C (some .silent) reset sch).1.errors := by
-  simp only [validate_eq]
-  cases r.assertFail with
-  | some e => rfl
-  | none => simp
+  simp only [validate_eq, Option.getD_some, processErrors_silent]
 
 theorem validate_silent_lenient_same :
     (r.validate C (some .lenient) reset sch).1 = (r.validate C (some .silent) reset sch).1 ∧
@@ -176,18 +188,14 @@ theorem validate_silent_lenient_same :
   refine ⟨validate_record_independent C r reset sch .lenient, ?_, ?_⟩
   · intro lg h
     constructor
-    · simp only [validate_eq] at h
-      cases ha : r.assertFail with
-      | some e => rw [ha] at h; cases h
-      | none => rw [ha] at h; simp at h; exact h
+    · rw [validate_silent_ok] at h
+      cases h; rfl
     · rw [validate_outcome, h]
       simp only [processErrors_lenient]; rfl
   · intro e h
     refine ⟨by rw [validate_outcome, h], ?_⟩
-    simp only [validate_eq] at h
-    cases ha : r.assertFail with
-    | some e' => rw [ha] at h; cases h; exact assertFail_notFormat ha
-    | none => rw [ha] at h; simp at h
+    rw [validate_silent_ok] at h
+    cases h
 
 theorem validate_strict_first_error {lg : List LogRec}
     (h : (r.validate C (some .silent) reset sch).2 = .ok lg) :
